@@ -316,7 +316,12 @@ class OsProxy:
         ag = current()
         if ag is not None and str(path).endswith((".so", ".dll", ".dylib")) and ag.count("cleanup") == 1:
             ag.gate("w_cleanup")
+        elif ag is not None and _is_final_cache(path):
+            ag.gate("x_unlink")       # the code under test deletes the cache file itself (no such step in the spec)
         return self._real.remove(path, **kw)
+
+    def unlink(self, path, **kw):
+        return self.remove(path, **kw)
 
     def rename(self, src, dst, **kw):
         ag = current()
